@@ -8,7 +8,7 @@ routes have several links, positions carry real link ids, snapping matters and t
 
   station s0 {DCFC:1, LEVEL_2:1} on node 1; station s1 {DCFC:1} on node 5; base b0 (1 stall, station bs {LEVEL_2:1}) on node 3;
   base b1 (1 stall) in the middle of street 4-5; v0 on node 0 (low energy), v1 in the middle of street 0-1 (small battery),
-  v2 on node 3 (at the base); request r0 from node 2 to node 4.
+  v2 on node 3 (at the base); request r0 from node 2 to node 4; request r1 between two addresses 25 m beside streets 0-1 and 3-4.
 """
 from __future__ import annotations
 
@@ -47,12 +47,24 @@ class GridWorld(World):
         v1 = mk_vehicle(env, rn, "v1", mid01, "small", energy=0.70)
         v2 = mk_vehicle(env, rn, "v2", node[3], "quiet", soc=0.5)
         self.starts = {"init": build_sim(env, rn, vehicles=(v0, v1, v2), stations=(s0, s1, bs), bases=(b0, b1))}
-        self.request_specs = {"r0": {"origin": node[2], "destination": node[4]}}
+        # r1: both addresses lie BESIDE the street (25 m north of street 0-1 three quarters along, 25 m north of the middle of street
+        # 3-4): the requested cells are not on any link and are snapped to the nearest cell of the nearest link
+        from .nets import KM_PER_DEG_LAT, KM_PER_DEG_LON
+
+        def beside(link_id, frac, east_m=0.0, north_m=0.0):
+            link = rn.link_from_link_id(link_id)
+            line = h3.h3_line(link.start, link.end)
+            la, lo = h3.h3_to_geo(line[int(frac * (len(line) - 1))])
+            return h3.geo_to_h3(la + north_m / 1000.0 / KM_PER_DEG_LAT, lo + east_m / 1000.0 / KM_PER_DEG_LON, 15)
+
+        self.off_street = {"o": beside("0-1", 0.75, north_m=25.0), "d": beside("3-4", 0.5, north_m=25.0)}
+        self.request_specs = {"r0": {"origin": node[2], "destination": node[4]},
+                              "r1": {"origin": self.off_street["o"], "destination": self.off_street["d"]}}
         from nrel.hive.model.request import RequestRateStructure
 
         self.rate_structure = RequestRateStructure(base_price=1.37, price_per_mile=0.73, minimum_price=0.5)
         per_vehicle = [
-            ("Idle",), ("OutOfService",), ("DispatchTrip", "r0"), ("DispatchStation", "s0", "DCFC"), ("DispatchStation", "s1", "DCFC"),
+            ("Idle",), ("OutOfService",), ("DispatchTrip", "r0"), ("DispatchTrip", "r1"), ("DispatchStation", "s0", "DCFC"), ("DispatchStation", "s1", "DCFC"),
             ("ChargeStation", "s0", "DCFC"), ("DispatchBase", "b0"), ("DispatchBase", "b1"), ("ReserveBase", "b0"),
             ("ChargeBase", "b0", "LEVEL_2"), ("Reposition", "5-2"), ("Reposition", "1-0"),
         ]
